@@ -48,16 +48,31 @@ def _ev(node, env):
             if isinstance(node.op, ast.Add):
                 return a + b
             return a - b
+        if isinstance(node.op, ast.Add) and type(a) is type(b) and isinstance(a, (str, list, tuple)):
+            return a + b
+        if isinstance(node.op, ast.Mult) and isinstance(a, (str, list)) and isinstance(b, int):
+            return a * b
     if isinstance(node, ast.Call):
         f = node.func
         if isinstance(f, ast.Name) and f.id == "int" and len(node.args) == 2:
             return int(_ev(node.args[0], env), _ev(node.args[1], env))
-        if isinstance(f, ast.Attribute) and f.attr == "array" and len(node.args) == 1:
+        if isinstance(f, ast.Attribute) and f.attr == "array" and len(node.args) >= 1:
             return _ev(node.args[0], env)
+        if isinstance(f, ast.Name) and f.id in ("list", "tuple") and len(node.args) == 1:
+            return list(_ev(node.args[0], env))
     raise NotExtractable(ast.dump(node)[:80])
 
 
+_MODULE = {}
+
+
 def _find_func(tree, name, cls=None):
+    f = _find_func0(tree, name, cls)
+    _MODULE[id(f)] = tree
+    return f
+
+
+def _find_func0(tree, name, cls=None):
     body = tree.body
     if cls is not None:
         for n in body:
@@ -88,6 +103,8 @@ def _assign(scope, name, env=None, what=""):
             found = val
         elif isinstance(tgt, ast.Attribute) and tgt.attr == name:
             found = val
+    if found is None and _MODULE.get(id(scope)) is not None and _MODULE[id(scope)] is not scope:
+        return _assign(_MODULE[id(scope)], name, env, what)
     if found is None:
         raise NotExtractable(what + name)
     try:
